@@ -100,7 +100,11 @@ PROPS["C13"] = dict(
          "shape class); non-trivial = result differs from input",
     assumptions=MODEL + ["mzd_apply_p_right_even_capped is only exercised with start_col = 0 (its start_col semantics for the non-transposed variant are not stated)",
                          "mzd_and_bits is not exercised (not named by the property)"],
-    stages=FUNC("rowcol", (18000, 330), (400000, 700), (4500, 330), (80000, 1500), (4500, 200), (80000, 500)),
+    stages=FUNC("rowcol", (18000, 330), (400000, 700), (4500, 330), (80000, 1500), (4500, 200), (80000, 500), extra=[
+        # every pair of columns for matrices up to 3 words wide (same word / different words, all bit positions), 5 row counts
+        S("small-asan", "func", ["--ops", "mzd_col_swap,mzd_col_swap_in_rows", "--arg", "colpairs:2"], (32768, 0), (0, 0)),
+        S("small-asan", "func", ["--ops", "mzd_col_swap,mzd_col_swap_in_rows", "--arg", "colpairs:3"], (0, 0), (368640, 0)),
+    ]),
 )
 PROPS["C17"] = dict(
     level="exploration",
@@ -115,7 +119,13 @@ PROPS["C08"] = dict(
     rule="case = (operation, shape, pattern dense/ones/single/..., destination NULL/dirty/aliased); oracle: entry-wise model; transpose twice == original; "
          "distinct = (build, operation, kernel/width/path class, shape residues, pattern, destination kind); non-trivial = matrix != 0 and shape != 1x1",
     assumptions=MODEL,
-    stages=FUNC("move", (18000, 200), (300000, 900), (3600, 800), (60000, 2100), (3600, 150), (60000, 600)),
+    stages=FUNC("move", (18000, 200), (300000, 900), (3600, 800), (60000, 2100), (3600, 150), (60000, 600), extra=[
+        # bounded-exhaustive shape grids: every (nrows, ncols) in [1,N]^2 for transpose / copy / add / set_ui (all 12 size-specialised transpose
+        # kernels with every residue pair); quick: N = 66 for transpose only, thorough: N = 130 for four ops
+        S("small-asan", "func", ["--ops", "mzd_transpose", "--arg", "grid:66"], (4356, 0), (0, 0)),
+        S("small-asan", "func", ["--ops", "mzd_transpose,mzd_copy,mzd_add,mzd_set_ui", "--arg", "grid:130"], (0, 0), (67600, 0)),
+        S("small-nosse-ts-asan", "func", ["--ops", "mzd_transpose,mzd_add", "--arg", "grid:130"], (0, 0), (33800, 0)),
+    ]),
     require_tags={"quick": ["transpose_le8", "transpose_le16", "transpose_le32", "transpose_lt64", "transpose_block", "transpose_split64", "transpose_split512",
                             "submatrix_aligned", "submatrix_unaligned"],
                   "thorough": ["transpose_le8", "transpose_split512", "submatrix_unaligned"]},
